@@ -263,13 +263,13 @@ Proof. intros [tr H]. eapply inv_run; eauto using inv_init. Qed.
 Lemma sockclose_only_when_no_exchange s c s' :
   step s (Conn c SockClose) = Some s' ->
   exists cn, nth_error (conns s) c = Some cn /\
-    (ph cn = Written \/
+    (ph cn = Written \/ ph cn = Broken \/
      (closing s = true /\ (ph cn = Registered \/ ph cn = Idle \/ ph cn = HeadPartial))).
 Proof.
   intros H. apply step_conn_inv in H as (cn & p' & Hn & Hc & _).
   exists cn. split; auto.
   destruct (ph cn); simpl in Hc; try discriminate; auto;
-    destruct (closing s); try discriminate; auto.
+    destruct (closing s); try discriminate; auto 6.
 Qed.
 
 (* line 525: a response decided while closing is visible is marked *)
@@ -286,11 +286,11 @@ Qed.
 (* after a marked response the only thing the connection can do is close *)
 Lemma written_only_closes s c cn k s' :
   nth_error (conns s) c = Some cn -> ph cn = Written ->
-  step s (Conn c k) = Some s' -> k = SockClose.
+  step s (Conn c k) = Some s' -> k = SockClose \/ k = CliGone.
 Proof.
   intros Hn Hp H. apply step_conn_inv in H as (cn' & p' & Hn' & Hc & _).
   rewrite Hn in Hn'. inversion Hn'; subst. rewrite Hp in Hc.
-  destruct k; simpl in Hc; try discriminate. reflexivity.
+  destruct k; simpl in Hc; try discriminate; auto.
 Qed.
 
 Lemma quiet_no_reqmod s c cn :
@@ -410,6 +410,7 @@ Proof.
   - destruct (Hstep SockClose SockClosed eq_refl) as [s' Hs']. exists SockClose, s'. auto.
   - destruct (Hstep Done Finished eq_refl) as [s' Hs']. exists Done, s'. auto.
   - congruence.
+  - destruct (Hstep SockClose SockClosed eq_refl) as [s' Hs']. exists SockClose, s'. auto.
 Qed.
 
 Lemma no_deadlock s :
